@@ -6,7 +6,7 @@
 EXTENDS TraceBase
 VARIABLE holder
 tvars == <<holder, l>>
-Res == {"lru", "writer", "bigwriter"}
+Res == {"lru", "writer", "bigwriter", "driver"}
 TInit == TraceBaseInit /\ holder = [r \in Res |-> 0]
 Enter(t, r) == holder[r] = 0 /\ holder' = [holder EXCEPT ![r] = t]           \* at most one thread inside
 Leave(t, r) == holder[r] = t /\ holder' = [holder EXCEPT ![r] = 0]
